@@ -579,6 +579,11 @@ func (i *IPv6Routing) LayerType() gopacket.LayerType { return LayerTypeIPv6Routi
 // SerializeTo implementation according to gopacket.SerializableLayer
 func (i *IPv6Routing) SerializeTo(b gopacket.SerializeBuffer, opts gopacket.SerializeOptions) error {
 	const ipv6HeaderBaseLen = 8
+	for n, ip := range i.SourceRoutingIPs {
+		if ip.To16() == nil {
+			return fmt.Errorf("invalid IPv6 source routing address %d (length %d)", n, len(ip))
+		}
+	}
 	totalLen := ipv6HeaderBaseLen + len(i.SourceRoutingIPs)*net.IPv6len
 	hdrExtLen := (totalLen - ipv6HeaderBaseLen) / ipv6HeaderBaseLen
 
@@ -590,6 +595,7 @@ func (i *IPv6Routing) SerializeTo(b gopacket.SerializeBuffer, opts gopacket.Seri
 	bytes[1] = byte(hdrExtLen)
 	bytes[2] = i.RoutingType
 	bytes[3] = i.SegmentsLeft
+	clear(bytes[4:8])
 	copy(bytes[4:8], i.Reserved)
 	for i, ip := range i.SourceRoutingIPs {
 		offset := 8 + i*16
